@@ -481,7 +481,19 @@ fn c16_one(ctx: &mut Ctx, lat: f64, lon: f64, elev: f64) {
     }
 }
 
-pub fn c16(ctx: &mut Ctx, tier: &str, r: &mut Rng, js: &[Value], _reqs: &[String], replay_only: bool) {
+pub fn c16(ctx: &mut Ctx, tier: &str, r: &mut Rng, js: &[Value], reqs: &[String], replay_only: bool) {
+    // requests handed over from a correspondence break: `qibla <lat bits> <lon bits>`
+    for q in reqs {
+        let t: Vec<&str> = q.split_whitespace().collect();
+        if t.len() == 3 && t[0] == "qibla" {
+            let f = |s: &str| u64::from_str_radix(s, 16).ok().map(f64::from_bits);
+            if let (Some(a), Some(b)) = (f(t[1]), f(t[2])) {
+                if a.abs() <= 90. && b.abs() <= 180. {
+                    c16_one(ctx, a, b, 0.);
+                }
+            }
+        }
+    }
     for v in js {
         if let (Some(a), Some(b)) = (v.get("lat").and_then(|x| x.as_f64()), v.get("lon").and_then(|x| x.as_f64())) {
             c16_one(ctx, a, b, v.get("elev").and_then(|x| x.as_f64()).unwrap_or(0.));
